@@ -662,7 +662,18 @@ func (env *SpecEnv) call(x ECall) SpecVal {
 		if env.hdr == nil {
 			env.fail("hdr() is only available in loop 'use' clauses")
 		}
-		return env.hdr.tr(x.Args[0])
+		h := env.hdr
+		if len(env.bound) > 0 {
+			// quantifier-bound names of the enclosing clause stay visible inside hdr(…)
+			bv := map[string]SpecVal{}
+			for k := range env.bound {
+				if v, ok := env.vars[k]; ok {
+					bv[k] = v
+				}
+			}
+			h = h.with(bv)
+		}
+		return h.tr(x.Args[0])
 	case "len":
 		v := env.tr(x.Args[0])
 		switch v.Sort {
@@ -838,6 +849,12 @@ func (env *SpecEnv) call(x ECall) SpecVal {
 		id, ok := x.Args[0].(EIdent)
 		if !ok {
 			env.fail("arg() needs a parameter name")
+		}
+		if env.locals == nil && !env.bound[id.Name] {
+			// a callee's contract at a call site: its parameters are bound to the actual arguments
+			if v, ok := env.vars[id.Name]; ok {
+				return v
+			}
 		}
 		v, ok := g.paramVals[id.Name]
 		if !ok {
